@@ -134,6 +134,34 @@ class BT(Base17):
     pass
 
 
+# multiple inheritance with a mixin in front, plus a virtual base: three
+# single-step candidates at once (base, derived, unrelated ABC)
+class MB(Base17):
+    pass
+
+
+class MD(MB):
+    pass
+
+
+class MMix(Base17):
+    pass
+
+
+class IU(abc.ABC):
+    pass
+
+
+class ML(MMix, MD):
+    pass
+
+
+class MT(Base17):
+    pass
+
+
+IU.register(ML)
+
 BRANCH_EDGES = [(BS, BA), (BS, BB), (BS, BC), (BA, BX), (BB, BX), (BX, BT),
                 (BC, BT), (BA, BB)]
 
@@ -146,6 +174,8 @@ UNIVERSES = {
     "abc": {"types": [S0, S1, V, W, IP, IQ], "sources": [S1, V],
             "targets": [IP, IQ, W]},
     "falsy": {"types": [S0, S1, X, Z], "sources": [S1], "targets": [Z]},
+    "mixin-abc": {"types": [MB, MD, IU, ML, MT], "sources": [ML],
+                  "targets": [MT]},
 }
 #: "cond": a conditional factory that refuses the bare source object and
 #: accepts anything that is itself an adapter
@@ -158,6 +188,8 @@ def concrete(tp):
         return V
     if tp is IQ:
         return W
+    if tp is IU:
+        return ML
     return tp
 
 
@@ -566,7 +598,8 @@ def run_shard(ctx, shard, tier):
         return
     offs = all_offers(uni)
     U = UNIVERSES[uni]
-    maxn = {"linear": 3, "diamond": 2, "abc": 2, "falsy": 2}[uni]
+    maxn = {"linear": 3, "diamond": 2, "abc": 2, "falsy": 2,
+            "mixin-abc": 3}[uni]
     if tier == "thorough":
         maxn += 1
     first = offs[shard["first"]]
@@ -605,7 +638,8 @@ def replay(rec):
     from mc.ctx import Ctx
     ctx = Ctx("C17", None, "quick", 0)
     names = {c.__name__: c for c in (S0, S1, S2, X, Y, T, Z, D0, D1, D2, D3,
-                                     IP, IQ, V, W, BS, BA, BB, BC, BX, BT)}
+                                     IP, IQ, V, W, BS, BA, BB, BC, BX, BT,
+                                     MB, MD, MMix, IU, ML, MT)}
     if rec.get("universe") == "late":
         late_registration(ctx)
         for v in ctx.violations.values():
